@@ -139,11 +139,10 @@ func runHistory[K comparable, V any](h History, universe []K, extra func(int) K,
 			if existed && st != nil {
 				tallBefore = heightNow(n, show(k))
 			}
-			r := list.Put(k, mk(op.V))
+			// Put returns the map to go on with (the receiver itself here; the
+			// property does not promise that identity, so the result is used)
+			list = list.Put(k, mk(op.V))
 			ref[k] = mk(op.V)
-			if r != list {
-				return viol("C18.a", "Put did not return the list", "op %d %v", n, op)
-			}
 			if existed && tallBefore >= 2 && st != nil {
 				st.overwriteTall++
 			}
@@ -155,7 +154,7 @@ func runHistory[K comparable, V any](h History, universe []K, extra func(int) K,
 		case "fill":
 			var zero V
 			for j := 0; j < op.N; j++ {
-				list.Put(extra(j), mk(1+j%7))
+				list = list.Put(extra(j), mk(1+j%7))
 			}
 			// the list is at its largest now: present and absent keys, and the
 			// keys of the universe that the model holds
@@ -186,7 +185,7 @@ func runHistory[K comparable, V any](h History, universe []K, extra func(int) K,
 					continue // the round uses keys that are absent at this point
 				}
 				v := mk(1 + j%5)
-				list.Put(ck, v)
+				list = list.Put(ck, v)
 				if got := list.Get(ck); !eq(got, v) {
 					return viol("C18.a", "Get returned a value different from the map model", "history %v: op %d, churn round %d: get(%v) = %v after put %v", h, n, j, show(ck), got, v)
 				}
